@@ -154,6 +154,7 @@ class SigCase:
         self.is_async = False
         self.strs: list[str] = []
         self.hazard: str | None = None
+        self.uid = "w"
 
 
 def gen_sig(rng, idx: int, mode: str) -> SigCase:
@@ -163,6 +164,7 @@ def gen_sig(rng, idx: int, mode: str) -> SigCase:
     c.ctx = rng.choice(["func", "func", "method", "method", "static", "classm", "nested-class"])
     c.is_async = rng.random() < 0.15
     c.name = f"f{idx}"
+    c.uid = str(idx)
     if c.ctx in ("method", "nested-class") and rng.random() < 0.2:
         c.name = rng.choice(MAGIC)
     npo = rng.choice([0, 0, 0, 1, 2, 3])
@@ -254,8 +256,8 @@ def sig_source(c: SigCase) -> tuple[list[str], str]:
         return [head, "    pass"], plist
     deco = {"static": ["    @staticmethod"], "classm": ["    @classmethod"]}.get(c.ctx, [])
     if c.ctx == "nested-class":
-        return [f"class K{c.name}:", "    class Inner:"] + ["    " + d for d in deco] + ["        " + head, "            pass"], plist
-    return [f"class K{c.name}:"] + deco + ["    " + head, "        pass"], plist
+        return [f"class K{c.uid}:", "    class Inner:"] + ["    " + d for d in deco] + ["        " + head, "            pass"], plist
+    return [f"class K{c.uid}:"] + deco + ["    " + head, "        pass"], plist
 
 
 def sig_driver_line(c: SigCase) -> str:
@@ -362,29 +364,55 @@ def tie_signatures(ctx: Ctx) -> None:
         c = SigCase()
         c.params = src_params  # type: ignore[assignment]
         c.name = nm_
+        c.uid = nm_
         c.ctx = "method" if nm_ == "wit_self" else "func"
         c.mode = "elide"  # type: ignore[attr-defined]
         cases.append(c)
-    # run the real generator in batches (one module per batch)
+    # run the real generator in batches (one module per batch); a crash is bisected down to the culprit def
     real_lines: dict[int, str] = {}
-    B = 150
-    for b in range(0, len(cases), B):
-        lines = ["from typing import Callable", "import mod", "class Foo: pass"]
-        for c in cases[b:b + B]:
+    HEAD = ["from typing import Callable", "import mod", "class Foo: pass"]
+
+    def find_def(out_lines: list[str], c: SigCase) -> str | None:
+        if c.ctx == "func":
+            pat = re.compile(rf"(async )?def {re.escape(c.name)}\(")
+            return next((l for l in out_lines if pat.match(l)), None)
+        start = next((k for k, l in enumerate(out_lines) if l.startswith(f"class K{c.uid}:") or l.startswith(f"class K{c.uid}(")), None)
+        if start is None:
+            return None
+        for l in out_lines[start + 1:]:
+            if l and not l.startswith(" "):
+                return None
+            if re.match(r"\s+(async )?def ", l):
+                return l
+        return None
+
+    def run_batch(lo: int, hi: int) -> None:
+        lines = list(HEAD)
+        for c in cases[lo:hi]:
             lines += sig_source(c)[0]
         try:
             out = real_stub("\n".join(lines) + "\n")
         except ToolFailure:
             raise
-        except Exception as e:   # the real code crashed on a generated def: that is a finding candidate
-            out = ""
-            ctx.coverage.setdefault("tie_A_crashes", []).append(repr(e)[:200])
-        # map def lines back: names are unique within the batch except magic names → walk in order
-        want = [c for c in cases[b:b + B]]
-        deflines = [l for l in out.splitlines() if re.match(r"\s*(async )?def ", l)]
-        for j, c in enumerate(want):
-            if j < len(deflines):
-                real_lines[b + j] = deflines[j]
+        except Exception as e:
+            if hi - lo == 1:
+                ctx.report({"class": "stubgen-crash", "exception": type(e).__name__},
+                           f"ASTStubGenerator raises {type(e).__name__}: {e} on a generated def",
+                           {"part": "A", "source": sig_source(cases[lo])[0], "exception": repr(e)[:300]})
+                real_lines[lo] = "<crash>"
+                return
+            mid = (lo + hi) // 2
+            run_batch(lo, mid); run_batch(mid, hi)
+            return
+        out_lines = out.splitlines()
+        for j in range(lo, hi):
+            l = find_def(out_lines, cases[j])
+            if l is not None:
+                real_lines[j] = l
+
+    B = 150
+    for b in range(0, len(cases), B):
+        run_batch(b, min(b + B, len(cases)))
     model = ctx.lean_driver("Driver/C19.lean", [sig_driver_line(c) for c in cases])
     if len(model) != len(cases):
         raise ToolFailure(f"driver returned {len(model)} lines for {len(cases)} cases")
@@ -405,8 +433,15 @@ def tie_signatures(ctx: Ctx) -> None:
         mtext, mparse = mline.split("\t")
         mtext = sub_strs(mtext, c.strs)
         real = real_lines.get(i)
+        if real == "<crash>":
+            continue
         if real is None:
-            raise ToolFailure(f"no def line in the real stub for generated case {i}: {src_lines}")
+            ctx.count("disagreements_checked")
+            nviol += 1
+            if nviol <= 3:
+                ctx.report({"class": "def-missing-from-stub"}, f"no `def` line in the stub for a generated (private names included) def: {src_lines}",
+                           {"part": "A", "source": src_lines})
+            continue
         sp = split_def_line(real)
         if sp is None:
             raise ToolFailure(f"cannot split real def line {real!r}")
@@ -626,8 +661,8 @@ def tie_defaults(ctx: Ctx) -> None:
             construct = default_construct(enc, src)
             if verdict == "default-free-name":
                 free = {n.id for n in ast.walk(ast.parse(real, mode="eval")) if isinstance(n, ast.Name)}
-                expected = {"unary-not": r"not(\d+|inf|nan)", "non-finite-float": r"inf|nan"}.get(construct)
-                if expected is None or not all(re.fullmatch(expected, f) or re.fullmatch(r"not(\d+|inf|nan)|inf|nan", f) for f in free):
+                expected = {"unary-not": r"not[0-9a-z]+", "non-finite-float": r"inf|nan"}.get(construct)
+                if expected is None or not all(re.fullmatch(expected, f) or re.fullmatch(r"not[0-9a-z]+|inf|nan", f) for f in free):
                     construct = "other"
             observed = {"class": "default-mis-rendered", "construct": construct, "effect": verdict}
             key = json_key({k: observed[k] for k in ("class", "construct")})
